@@ -11,7 +11,9 @@ or of the model, re-runs everything)."""
 import hashlib, itertools, json, os, re, time
 import lib
 
-PROPS = ["C07", "C10", "C02", "C11"]
+SHARED = ["C07", "C10", "C02", "C11"]     # one shared state-machine / loop run
+PROPS = SHARED + ["C18"]                  # C18 (keep-alive) has its own run
+
 CDIR = os.path.join(lib.BUILD, "client")
 VERSIONS = ["4", "5"]
 
@@ -424,6 +426,44 @@ def exhaustive_histories(ver, mx, length):
         yield [new] + list(seq)
 
 
+def order_histories(ver, mx, length):
+    """C11 order across repeated failures: every sequence over {publish QoS1, PUBACK of the oldest
+    unacknowledged, RESUME = clean() + exact replay of what it returns} of the given length,
+    closed by a final CLEAN.  The replay is predicted by the generator's tracker (rotation at
+    last_puback), so outside K29/K30 the expected order of the last clean() is the original send order."""
+    def rec(ops, tr, tag, n):
+        if n == 0:
+            yield ops + ["CLEAN"]
+            return
+        if tr.coll is None:
+            t2 = tag + 1
+            tr2 = copy_tracker(tr)
+            tr2.publish(1, t2)
+            yield from rec(ops + ["OUT PUB 1 0 %d %d" % (t2 % 50, t2)], tr2, t2, n - 1)
+        if tr.pub:
+            tr2 = copy_tracker(tr)
+            i = next(iter(tr2.pub))
+            tr2.ack("PUBACK", i)
+            yield from rec(ops + ["IN PUBACK %d" % i], tr2, tag, n - 1)
+        if tr.pub or tr.coll:
+            tr2 = copy_tracker(tr)
+            pubs, rels, park = tr2.clean()
+            new = ["CLEAN"]
+            for (i, q, t) in pubs:
+                new.append("OUT PUB %d %d %d %d" % (q, i, t % 50, t)); tr2.publish(q, t, i)
+            if park:
+                new.append("OUT PUB %d %d %d %d" % (park[1], park[0], park[2] % 50, park[2])); tr2.publish(park[1], park[2], park[0])
+            yield from rec(ops + new, tr2, tag, n - 1)
+    yield from rec(["NEW %s %d 0" % (ver, mx)], Tracker(mx, ver), 0, length)
+
+
+def copy_tracker(tr):
+    t = Tracker(tr.max, tr.ver)
+    t.last, t.limit, t.lp = tr.last, tr.limit, tr.lp
+    t.pub, t.rel, t.coll, t.inc2 = dict(tr.pub), list(tr.rel), tr.coll, list(tr.inc2)
+    return t
+
+
 INCOMING_ALPHABET = ["IN PUB 0 0 1 1", "IN PUB 1 {i} 1 1", "IN PUB 2 {i} 1 1", "IN PUBREL {i}", "IN PUBACK {i}", "IN PUBREC {i}",
                      "IN PUBCOMP {i}", "IN SUBACK {i}", "IN UNSUBACK {i}", "IN PINGRESP", "IN PINGREQ", "IN CONNACK 1 0",
                      "IN DISCONNECT", "IN CONNECT", "IN SUB {i} 1", "IN UNSUB {i} 1"]
@@ -452,10 +492,11 @@ class Tracker:
     """Generator-side approximation of which ids the client holds (used only to aim acks;
     never as an oracle)."""
 
-    def __init__(self, mx):
-        self.max, self.last, self.limit = mx, 0, mx
+    def __init__(self, mx, ver="4"):
+        self.max, self.last, self.limit, self.ver = mx, 0, mx, ver
         self.pub, self.rel, self.coll = {}, [], None
         self.inc2 = []
+        self.lp = 0          # v4 last_puback: written by every PUBACK whose id is inside the table
 
     def next(self):
         n = self.last + 1
@@ -473,6 +514,8 @@ class Tracker:
 
     def ack(self, kind, i):
         freed = False
+        if kind == "PUBACK" and i <= self.limit:
+            self.lp = i
         if kind == "PUBACK" and i in self.pub:
             del self.pub[i]; freed = True
         elif kind == "PUBREC" and i in self.pub:
@@ -483,8 +526,9 @@ class Tracker:
             self.pub[i] = (self.coll[1], self.coll[2]); self.coll = None
 
     def clean(self):
-        pubs = [(i, q, t) for i, (q, t) in self.pub.items()]
-        rels = list(self.rel)
+        rot = list(range(self.lp + 1, self.limit + 1)) + list(range(1, self.lp + 1)) if self.ver == "4" else list(range(1, self.limit + 1))
+        pubs = [(i, self.pub[i][0], self.pub[i][1]) for i in rot if i in self.pub]
+        rels = sorted(self.rel)
         park = self.coll
         self.pub, self.rel, self.coll, self.inc2 = {}, [], None, []
         return pubs, rels, park
@@ -494,9 +538,9 @@ def random_history(rng, ver, style, mx, nops):
     """style: inorder | reorder | hostile | mixed"""
     manual = 1 if rng.chance(1, 6) else 0
     ops = ["NEW %s %d %d" % (ver, mx, manual)]
-    tr = Tracker(mx)
+    tr = Tracker(mx, ver)
     tag = 0
-    qos2 = style != "inorder" and rng.chance(2, 3)
+    qos2 = style not in ("inorder", "order") and rng.chance(2, 3)
     while len(ops) < nops:
         r = rng.below(100)
         held = list(tr.pub) + tr.rel
@@ -506,12 +550,14 @@ def random_history(rng, ver, style, mx, nops):
             q = 2 if (qos2 and rng.chance(1, 3)) else 1
             ops.append("OUT PUB %d 0 %d %d" % (q, tag % 50, tag))
             tr.publish(q, tag)
+        elif r < 44 and style == "order":
+            ops.append(rng.choice(["OUT PUB 0 0 1 1", "OUT PINGREQ", "IN PINGRESP", "IN PUB 1 1 1 1"]))
         elif r < 44:
             ops.append(rng.choice(["OUT SUB 1", "OUT UNSUB 1", "OUT SUB 2", "OUT PUB 0 0 1 1", "OUT PINGREQ", "IN PINGRESP", "IN SUBACK 1"]))
             if ops[-1].startswith(("OUT SUB", "OUT UNSUB")):
                 tr.next()
         elif r < 84 and held:
-            if style == "inorder":
+            if style in ("inorder", "order"):
                 i = list(tr.pub)[0] if tr.pub else tr.rel[0]
             else:
                 i = rng.choice(held)
@@ -540,7 +586,7 @@ def random_history(rng, ver, style, mx, nops):
             kind = rng.choice(["PUBACK", "PUBREC", "PUBCOMP", "PUBREL"])
             ops.append("IN %s %d" % (kind, i))
             tr.ack(kind, i)
-        elif r < 95:
+        elif r < 95 and style != "order":
             i = rng.choice([1, 2, mx, 1 + rng.below(mx)])
             q = rng.below(3)
             ops.append("IN PUB %d %d 1 1" % (q, i))
@@ -552,10 +598,10 @@ def random_history(rng, ver, style, mx, nops):
                 ops.append("IN PUBREL %d" % j)
             if manual and q and rng.chance(1, 2):
                 ops.append("OUT %s %d" % ("PUBACK" if q == 1 else "PUBREC", i))
-        elif r < 98:
+        elif r < 98 or (style == "order" and r < 100):
             pubs, rels, park = tr.clean()
             ops.append("CLEAN")
-            if rng.chance(3, 4):   # session resumed: replay what clean() should have returned
+            if style == "order" or rng.chance(3, 4):   # session resumed: replay what clean() should have returned
                 for (i, q, t) in pubs:
                     ops.append("OUT PUB %d %d %d %d" % (q, i, t % 50, t))
                     tr.publish(q, t, i)
@@ -626,11 +672,17 @@ def gen_histories(ctx, ver):
     for mx in (1, 2, 3):
         for h in incoming_histories(ver, mx, 2 if th else 1):
             yield "incoming-max%d" % mx, h
+    if ver == "4":
+        for mx, L in ((2, 14 if th else 12), (3, 13 if th else 12)):
+            for h in order_histories(ver, mx, L):
+                yield "order-max%d-len%d" % (mx, L), h
     rng = lib.Rng(ctx.seed * 1000 + int(ver))
     n = 20000 if th else 3000
     for k in range(n):
-        style = ["inorder", "reorder", "hostile", "mixed"][k % 4]
+        style = ["inorder", "reorder", "hostile", "mixed", "order"][k % 5]
         mx = [1, 2, 3, 4, 5, 10, 100, 65535][rng.below(8)] if k % 3 else [1, 2, 3][rng.below(3)]
+        if style == "order":
+            mx = [2, 3, 4, 5][rng.below(4)]
         yield "rand-" + style, random_history(rng, ver, style, mx, 30 + rng.below(170 if mx < 65535 else 40))
 
 
@@ -662,6 +714,11 @@ class LoopMon:
         self.netq = []                 # broker packets written on this connection, not yet read: (kind, id)
         self.spurious = False          # an aborted batch held an ack the monitor cannot attribute (see feed)
         self.nontrivial = set()
+        # C11 order (MQTT 3.1.1, QoS1 acknowledged in order, outside K29/K30): original send order
+        self.first = []                # tags in the order they were first put on the wire
+        self.order_ok = True           # still inside the class: QoS<=1 only, no SUB/UNSUB, acks in order, session always resumed
+        self.conn_last = -1            # original position of the last publish written on this connection
+        self.failures = 0
 
     def v(self, prop, text):
         self.viol.append((prop, text))
@@ -676,7 +733,11 @@ class LoopMon:
         x = self.st.get(tg)
         if kind == "PUBACK":
             if x is None or x[0] != "U":
+                self.order_ok = False      # a PUBACK that acknowledges nothing moves last_puback
                 return False
+            oldest = next((g for g in self.first if self.st.get(g, ["A"])[0] == "U"), None)
+            if oldest != tg:
+                self.order_ok = False      # not acknowledged in order
             x[0] = "A"; del self.cur[i]
         elif kind == "PUBREC":
             if x is None or x[0] != "U":
@@ -707,6 +768,8 @@ class LoopMon:
         if t[0] == "SEND":
             if t[1] == "PUB" and t[2] != "0" and ans == "OK":
                 self.sent.append(t[5]); self.sent_gen[t[5]] = self.gen
+            if t[1] in ("SUB", "UNSUB") or (t[1] == "PUB" and t[2] == "2"):
+                self.order_ok = False      # K30 / not a QoS1-only history
             return
         if t[0] == "NET":
             for part in line[3:].split(";"):
@@ -749,10 +812,14 @@ class LoopMon:
                 self.run_batch(stop_on_refusal=True)
             self.netq = []
             self.gen += 1
+            self.failures += 1
             self.nontrivial.add("failure-with-unacked" if self.cur else "failure")
             return
         if kind == "EVENT" and arg.startswith("I(CONNACK:"):
             self.cur, self.netq = {}, []
+            self.conn_last = -1
+            if arg[10] != "1":
+                self.order_ok = False      # K29: the session was not resumed
             if arg[10] == "1":
                 self.resumed = True
                 if self.owed():
@@ -791,6 +858,15 @@ class LoopMon:
                         self.v("C11", "publish %s, issued by the user after the failure, sent on the resumed session before the retransmission of %s" % (w, ow))
                     self.st[tag] = ["U", i]
                 self.cur[i] = tag
+                if tag not in self.first:
+                    self.first.append(tag)
+                pos = self.first.index(tag)
+                if self.order_ok and self.failures >= 1 and pos < self.conn_last:
+                    self.v("C11", "after %d failure(s) the resumed session sent %s (originally sent as number %d) after a publish originally sent as number %d: not the original order %s" % (
+                        self.failures, w, pos + 1, self.conn_last + 1, [g for g in self.first if self.st.get(g, ["A"])[0] in "UR"]))
+                if self.order_ok and self.failures >= 2:
+                    self.nontrivial.add("order-after-repeated-failure")
+                self.conn_last = max(self.conn_last, pos)
                 if len(self.cur) > self.max:
                     self.v("C07", "%d unacknowledged on the wire > limit %d" % (len(self.cur), self.max))
             elif f[0] == "PUBREL":
@@ -802,7 +878,7 @@ class LoopMon:
                 deferred.pop(0)
 
 
-def gen_loop_history(rng, model, mx):
+def gen_loop_history(rng, model, mx, style="mixed"):
     """model-guided: the extracted loop model answers each op, the broker script (which acks to
     send) is chosen from what the model says is on the wire; returns (ops, model_answers)"""
     ops, answers = [], []
@@ -841,6 +917,35 @@ def gen_loop_history(rng, model, mx):
     steps = 6 + rng.below(14)
     for _ in range(steps):
         r = rng.below(100)
+        if style == "order":
+            # QoS1 only, acks of the oldest first, session always resumed, failures also while replaying
+            if r < 40:
+                for _ in range(1 + rng.below(3)):
+                    tag += 1
+                    do("SEND PUB 1 0 %d %d" % (tag % 50, tag))
+                a = drain()
+            elif r < 65 and unacked:
+                do("NET " + " ; ".join("PUBACK %d" % i for i in list(unacked)[:1 + rng.below(2)]))
+                for i in list(unacked)[:len(ops[-1].split(";"))]:
+                    unacked.pop(i)
+                a = drain()
+            else:
+                do("DROP")
+                a = drain()
+            if a.startswith(("AMBIG", "DISABLED")):
+                break
+            if a.startswith(("ERROR", "NOCONN")):
+                unacked.clear(); del rel[:]
+                do("ACCEPT 1"); note(do("POLL"))
+                for _ in range(rng.below(4)):          # replay partly ...
+                    a = do("POLL"); note(a)
+                if rng.chance(1, 2):                   # ... and fail again before any PUBACK
+                    do("DROP"); a = drain()
+                    if a.startswith("ERROR"):
+                        unacked.clear(); del rel[:]
+                        do("ACCEPT 1"); note(do("POLL"))
+                drain()
+            continue
         if r < 45:
             for _ in range(1 + rng.below(3)):
                 tag += 1
@@ -897,7 +1002,7 @@ def gen_loop_history(rng, model, mx):
 def loop_run(ctx, mexe):
     """end-to-end: real EventLoop (harness bin clientloop) vs Client/Loop.v, plus loop monitors"""
     import subprocess
-    res = {"histories": 0, "ops": 0, "div": [], "viol": {p: [] for p in PROPS}, "nontrivial": {}, "built": False,
+    res = {"histories": 0, "ops": 0, "div": [], "viol": {p: [] for p in SHARED}, "nontrivial": {}, "built": False,
            "truncated": 0, "samples": []}
     lexe, out = lib.cargo_driver("clientloop")
     if os.environ.get("VERIF_CLIENTLOOP_IMPL"):
@@ -912,7 +1017,10 @@ def loop_run(ctx, mexe):
     hs = []
     for k in range(n):
         mx = [1, 1, 2, 2, 3, 5][rng.below(6)]
-        ops, mans = gen_loop_history(rng, model, mx)
+        style = "order" if k % 3 == 2 else "mixed"
+        if style == "order":
+            mx = [2, 3, 3, 4][rng.below(4)]
+        ops, mans = gen_loop_history(rng, model, mx, style)
         # never compare past a point where the real select! may legitimately choose differently
         cut = next((i for i, a in enumerate(mans) if a in ("AMBIG", "NOCONN", "DISABLED", "PANIC")), None)
         if cut is not None:
@@ -951,6 +1059,257 @@ def loop_run(ctx, mexe):
         if len(res["samples"]) < 2 and len(ops) > 25:
             res["samples"].append({"ops": ops[:40], "impl_answers": a[:40]})
     return res
+
+
+# ----------------------------------------------------------------------------- C18: keep-alive, end to end
+
+KA_LINE = re.compile(r"^KA C@(\S+) PINGS\[(.*?)\] RESPS\[(.*?)\] END (ERROR (\S+)|HORIZON)@(\d+)$")
+KC_LINE = re.compile(r"^KACONN (CONNECTED|ERROR (\S+))@(\d+)$")
+
+C18_ASSUMPTIONS = [
+    "time is tokio's paused virtual clock; the event loop is polled continuously (the theorems' 'prompt polling' hypothesis); the scripted broker sits on the in-memory transport hook",
+    "PARTIAL: tokio's timer wheel, the order tokio's select! picks when the keep-alive timer and a PINGRESP are ready at the same instant, and real-time scheduling delays are not modelled. "
+    "Measured with the driver: a PINGRESP that becomes readable at exactly t + keep_alive races with the timer arm (both outcomes observed, about half each); a reply produced in that very instant loses; "
+    "the timer is reset to now + keep_alive when the arm RUNS, so under real time every gap is keep_alive + the polling latency (model: ex_late_poll_shifts_period)",
+    "a handshake completing at exactly connection_timeout races with the timeout (observed: NetworkTimeout); only the strict cases are claimed",
+    "StateError::CollisionTimeout (second timer firing while a packet id collision is parked) is a different failure and is carved out (c18_collision_timeout_distinct)",
+    "v5: MqttOptions::set_keep_alive rejects values below 5 s at configuration time (assert), so keep-alive 0 cannot be configured; the server can still assign any value, "
+    "0 included, through CONNACK Server Keep Alive (0 turns keep-alive off since fix: commit 30fc7fa)",
+]
+
+
+def c18_scenarios(ctx):
+    """(line, spec) — spec tells the monitor what the broker script was"""
+    th = ctx.thorough()
+    rng = lib.Rng(ctx.seed * 13 + 18)
+    out = []
+
+    def ka(ver, ka_ms, delays, silent, traffic, period, horizon, ska=None, race=False):
+        line = "KA %s %d %s %d %s %d %d" % (ver, ka_ms, ",".join(str(d) for d in delays), silent, traffic, period, horizon)
+        if ska is not None:
+            line += " %d" % ska
+        eff = ska * 1000 if ska is not None else ka_ms
+        out.append((line, {"kind": "ka", "ver": ver[0], "ka": eff, "delays": delays, "silent": silent, "traffic": traffic, "horizon": horizon, "race": race}))
+
+    for ver, kas in (("4", (1000, 5000, 60000)), ("5", (5000, 60000))):
+        for K in kas:
+            hz = lambda n: n * K + K // 16 + 7          # never on the timer grid
+            for traffic, period in (("none", 1000), ("up", K // 7 + 3), ("down", K // 5 + 1)):
+                for j in range(8):                       # the reply-delay grid 0, KA/8, ..., 7KA/8
+                    ka(ver, K, [j * K // 8], 0, traffic, period, hz(6))
+                for d in (K - 1, K + 1, K + K // 8, 2 * K, 5 * K // 2):   # just in time / too late
+                    ka(ver, K, [d], 0, traffic, period, hz(6))
+                for silent in (1, 2, 3, 5):              # the broker goes silent from that ping on
+                    ka(ver, K, [K // 8, 7 * K // 8, 0], silent, traffic, period, hz(silent + 4))
+            ka(ver, K, [K], 0, "none", 1000, hz(6), race=True)            # reply at exactly KA: a race, not compared
+    # keep-alive 0 (v4 option; v5: assigned by the server) over a long virtual time
+    for traffic in ("none", "up", "down"):
+        ka("4", 0, [100], 0, traffic, 977, 3_600_000)
+        ka("5", 5000, [100], 0, traffic, 977, 3_600_000, ska=0)
+    ka("5", 5000, [250], 0, "none", 1000, 21_000, ska=2)                 # server keep alive below the client-side minimum
+    ka("5", 5000, [250], 3, "down", 611, 40_000, ska=3)
+    # a PINGRESP written in the same instant as other broker traffic (same read batch)
+    for K in (1000, 5000):
+        ka("4", K, [K // 4], 0, "down", K // 4, 6 * K + K // 16 + 7)
+        ka("5" if K >= 5000 else "4", K, [K // 2, K // 4], 4, "down", K // 4, 8 * K + K // 16 + 7)
+    for k in range(3000 if th else 600):                                 # random mixes of delays
+        ver = "4" if k % 3 else "5"
+        K = rng.choice([1000, 5000, 60000] if ver == "4" else [5000, 60000])
+        n = 1 + rng.below(5)
+        delays = [rng.below(K) if rng.chance(5, 6) else K + 1 + rng.below(K) for _ in range(n)]
+        silent = 0 if rng.chance(2, 3) else 1 + rng.below(8)
+        traffic = rng.choice(["none", "up", "down"])
+        ka(ver, K, delays, silent, traffic, 50 + rng.below(K), (4 + rng.below(8)) * K + K // 16 + 3)
+    for ver in ("4", "5"):
+        for tm in (1, 2, 5):
+            for h in ("never", str(tm * 1000 - 1), str(tm * 500), "0", str(tm * 1000 + 1), str(tm * 3000)):
+                out.append(("KACONN %s %d %s" % (ver, tm, h), {"kind": "conn", "tm": tm * 1000, "h": None if h == "never" else int(h), "race": False}))
+            out.append(("KACONN %s %d %d" % (ver, tm, tm * 1000), {"kind": "conn", "tm": tm * 1000, "h": tm * 1000, "race": True}))
+    return out
+
+
+def c18_monitor(line, spec, ans):
+    """the property, on the real loop's timeline.  Returns (violations, triggers)."""
+    v, trig = [], set()
+    if spec["kind"] == "conn":
+        m = KC_LINE.match(ans)
+        if not m:
+            return ["unparsable answer %r" % ans], trig
+        if spec["race"]:
+            return v, trig
+        tm, h = spec["tm"], spec["h"]
+        if h is not None and h < tm:
+            if not (m.group(1) == "CONNECTED" and int(m.group(3)) == h):
+                v.append("handshake completed at %d < connection_timeout %d but poll() answered %s" % (h, tm, ans))
+        else:
+            trig.add("connect-timeout")
+            if not (m.group(2) == "NetworkTimeout" and int(m.group(3)) == tm):
+                v.append("handshake %s, connection_timeout %d: expected NetworkTimeout at %d, got %s" % ("never completes" if h is None else "takes %d" % h, tm, tm, ans))
+        return v, trig
+    m = KA_LINE.match(ans)
+    if not m:
+        return ["unparsable answer %r" % ans], trig
+    if spec["race"]:
+        return v, trig
+    c = int(m.group(1)) if m.group(1) != "-" else None
+    pings = [int(x) for x in m.group(2).split()]
+    resps = [int(x) for x in m.group(3).split()]
+    err, end = m.group(5), int(m.group(6))
+    K, delays, silent = spec["ka"], spec["delays"], spec["silent"]
+    if c is None:
+        return ["the connection was never established: %s" % ans], trig
+    if K == 0:
+        trig.add("keep-alive-zero")
+        if pings or err:
+            v.append("keep-alive 0 yet %s" % ans)
+        return v, trig
+    if spec["traffic"] != "none":
+        trig.add("one-way-traffic-" + spec["traffic"])
+    # at least one PINGREQ per interval: the first KA after the connection, then every KA
+    prev = c
+    for t in pings:
+        if t - prev > K:
+            v.append("no PINGREQ between %d and %d (keep-alive %d): gap %d" % (prev, t, K, t - prev))
+        elif t - prev != K:
+            v.append("PINGREQ at %d, %d after the previous one; the model says exactly every %d" % (t, t - prev, K))
+        prev = t
+    last = err and end or end
+    if not err and end - prev > K:
+        v.append("no PINGREQ between %d and the end of the run at %d (keep-alive %d)" % (prev, end, K))
+    # which ping is the first the broker does not answer in time
+    first_bad = None
+    for k in range(1, 10000):
+        d = delays[(k - 1) % len(delays)]
+        if (silent and k >= silent) or d >= K:
+            first_bad = k
+            break
+        if c + k * K > spec["horizon"]:
+            break
+    if first_bad is None or c + (first_bad + 1) * K > spec["horizon"]:
+        if err:
+            v.append("every PINGREQ was answered within the interval, yet poll() returned %s at %d" % (err, end))
+        trig.add("all-answered-in-time")
+    else:
+        t_bad = c + first_bad * K
+        trig.add("broker-silent" if (silent and first_bad >= silent) else "reply-too-late")
+        if err != "AwaitPingResp":
+            v.append("the PINGREQ written at %d got no PINGRESP within %d ms, yet the run ended with %s at %d" % (t_bad, K, err or "no error", end))
+        else:
+            if end != t_bad + K:
+                v.append("unanswered PINGREQ at %d: failure reported at %d, expected %d" % (t_bad, end, t_bad + K))
+            # the broker stopped answering after its last in-time reply (or was never heard)
+            in_time = [r for r in resps if r < t_bad]
+            s_silent = max(in_time) if in_time else c
+            if end > s_silent + 2 * K:
+                v.append("broker silent from %d, failure only reported at %d > %d" % (s_silent, end, s_silent + 2 * K))
+    return v, trig
+
+
+def c18_spec_of_line(l):
+    t = l.split()
+    if t[0] == "KA":
+        return {"kind": "ka", "ver": t[1][0], "ka": (int(t[8]) * 1000 if len(t) > 8 else int(t[2])), "delays": [int(x) for x in t[3].split(",")],
+                "silent": int(t[4]), "traffic": t[5], "horizon": int(t[7]), "race": t[1].endswith("b")}
+    return {"kind": "conn", "tm": int(t[2]) * 1000, "h": None if t[3] == "never" else int(t[3]), "race": False}
+
+
+def run_c18(ctx):
+    p_ok = ctx.proof_side(["Extract/ClientX.vo"])
+    ctx.assumptions += C18_ASSUMPTIONS
+    mexe, iexe, out = drivers()
+    lexe, lout = lib.cargo_driver("clientloop")
+    if os.environ.get("VERIF_CLIENTLOOP_IMPL"):
+        lexe = os.environ["VERIF_CLIENTLOOP_IMPL"]
+    if not mexe or not lexe:
+        ctx.violation("tie-broken", "the loop driver / model driver no longer builds against /repo:\n" + ((out or "") + (lout or ""))[-3000:], False,
+                      "harness build failed; correspondence EventLoop keep-alive (impl) = Client.KeepAlive not checked")
+        return
+    sc = c18_scenarios(ctx)
+    d = os.path.join(lib.ROOT, "corpus", "client")
+    for f in sorted(os.listdir(d)) if os.path.isdir(d) else []:
+        if f.startswith("ka") and f.endswith(".txt"):
+            for l in open(os.path.join(d, f)).read().splitlines():
+                if l.strip() and not l.startswith("#"):
+                    sc.insert(0, (l.strip(), c18_spec_of_line(l.strip())))
+    text = "\n".join(l for (l, _) in sc) + "\n"
+    rc1, impl, e1 = lib.run_on_text(lexe, text)
+    rc2, model, e2 = lib.run_on_text(mexe, text, args=["ka"])
+    if rc1 != 0 or rc2 != 0 or len(impl) != len(sc) or len(model) != len(sc):
+        ctx.violation("driver-failed", "exit codes impl=%d model=%d, lines %d/%d of %d\n%s\n%s" % (rc1, rc2, len(impl), len(model), len(sc), e1[-1500:], e2[-1500:]),
+                      False, "a driver did not answer every scenario")
+        return
+    # the race at exactly KA, measured: how often the reply wins when it is already readable
+    race_line = "KA 4b 1000 1000 0 none 1000 6070"
+    wins = losses = 0
+    runs = 24
+    for _ in range(runs):
+        _, a, _ = lib.run_on_text(lexe, race_line + "\n")
+        m = KA_LINE.match(a[0]) if a else None
+        if m:
+            npings = len(m.group(2).split())
+            wins += max(0, npings - 1)          # each further PINGREQ means the previous reply was read first
+            losses += 1 if m.group(5) else 0
+    viols, divs, trig, ntriv = [], [], {}, set()
+    for (line, spec), a, mo in zip(sc, impl, model):
+        vs, tg = c18_monitor(line, spec, a)
+        for x in tg:
+            trig[x] = trig.get(x, 0) + 1
+        if tg - {"all-answered-in-time"}:
+            ntriv.add(line)
+        for x in vs:
+            viols.append((line, x, a, mo))
+        if a != mo and not spec["race"]:
+            divs.append((line, a, mo))
+    ctx.cov["rule"] = ("keep-alive scenarios on the real rumqttc::EventLoop (v4 and v5) over the in-memory transport under paused tokio time, polled continuously, against a scripted broker; "
+                       "KA in {1 s, 5 s, 60 s} (v5: 5 s, 60 s, and server-assigned 0 / 2 / 3 s); reply delay on the grid {0, KA/8, ..., 7KA/8}, KA-1, and too late (KA+1 .. 5KA/2); broker silent from ping 1/2/3/5 on; "
+                       "user-only and broker-only QoS0 traffic at periods unrelated to KA; keep-alive 0 over one hour of virtual time; random delay mixes; connect handshake never / before / after connection_timeout. "
+                       "Each scenario also runs on the extracted Coq model (Client/KeepAlive.v) and the timelines are compared. non-trivial = scenario with a silent or late broker, one-way traffic, keep-alive 0 or a connect timeout; distinct scenario lines counted.")
+    ctx.cov["evaluations"] = len(sc)
+    ctx.cov["traces_validated_against_impl"] = len(sc)
+    ctx.cov["distinct_nontrivial"] = len(ntriv)
+    ctx.cov["trigger_histogram"] = trig
+    ctx.cov["samples"] = [{"scenario": l, "impl": a, "model": mo} for ((l, _), a, mo) in list(zip(sc, impl, model))[:3] + list(zip(sc, impl, model))[40:42]]
+    ctx.cov["loop_driver"] = True
+    ctx.cov["reply_at_exactly_keep_alive"] = {"scenario": race_line, "runs": runs, "rounds_reply_read_first": wins, "rounds_timer_first": losses,
+                                               "note": "PINGRESP already readable at the instant the timer fires: tokio's select! decides; both outcomes are legitimate and outside the claim"}
+    if viols:
+        viols.sort(key=lambda x: len(x[0]))
+        line, x, a, mo = viols[0]
+        content = "# C18 replay (keep-alive scenario, end to end): run: ./check C18 --replay <this file>\n# %s\n# impl : %s\n# model: %s\n%s\n" % (x, a, mo, line)
+        ctx.violation("input", content, True, "%s  [%s]" % (x, line))
+    elif divs:
+        line, a, mo = divs[0]
+        content = "# C18: the real event loop and Client/KeepAlive.v (Coq model) give different timelines; the property monitor is green.\n# impl : %s\n# model: %s\n%s\n" % (a, mo, line)
+        ctx.violation("correspondence", content, False, "event loop and keep-alive model differ on %d scenarios" % len(divs))
+    elif not p_ok:
+        ctx.violation("proof", "Proof obligations of Props/C18.v no longer check:\n%s\nNo scenario was found on which the real loop fails the keep-alive monitor (%d scenarios)." % (
+            getattr(ctx, "proof_error", ""), len(sc)), False, "theorems of Props/C18.v do not check")
+    ctx.log("scenarios=%d monitor-violations=%d divergences=%d race at exactly KA: reply first %d, timer first %d" % (len(sc), len(viols), len(divs), wins, losses))
+
+
+def replay_c18(ctx, path):
+    mexe, iexe, out = drivers()
+    lexe, _ = lib.cargo_driver("clientloop")
+    if os.environ.get("VERIF_CLIENTLOOP_IMPL"):
+        lexe = os.environ["VERIF_CLIENTLOOP_IMPL"]
+    lines = [l.strip() for l in open(path).read().splitlines() if l.strip() and not l.startswith("#")]
+    if not lines:
+        print(open(path).read())
+        return 1
+    rc = 0
+    _, impl, _ = lib.run_on_text(lexe, "\n".join(lines) + "\n")
+    _, model, _ = lib.run_on_text(mexe, "\n".join(lines) + "\n", args=["ka"])
+    for l, a, mo in zip(lines, impl, model):
+        spec = c18_spec_of_line(l)
+        vs, _ = c18_monitor(l, spec, a)
+        print("%s\n   impl : %s\n   model: %s%s" % (l, a, mo, "" if a == mo else "   <-- DIFFERS"))
+        for x in vs:
+            print("   monitor C18: " + x)
+        if vs or a != mo:
+            rc = 1
+    if rc:
+        print("VIOLATION property=C18 replay=%s" % path)
+    return rc
 
 # ----------------------------------------------------------------------------- running
 
@@ -1076,9 +1435,9 @@ def full_run(ctx, mexe, iexe):
     """the shared generated run; returns a JSON-able summary"""
     t0 = time.time()
     os.makedirs(CDIR, exist_ok=True)
-    res = {"evaluations": 0, "ops": 0, "groups": {}, "errors": {}, "nontrivial": {}, "distinct_nontrivial": {p: 0 for p in PROPS},
-           "viol": {p: [] for p in PROPS}, "div": [], "samples": [], "driver_failure": None, "breached": 0}
-    seen_nt = {p: set() for p in PROPS}
+    res = {"evaluations": 0, "ops": 0, "groups": {}, "errors": {}, "nontrivial": {}, "distinct_nontrivial": {p: 0 for p in SHARED},
+           "viol": {p: [] for p in SHARED}, "div": [], "samples": [], "driver_failure": None, "breached": 0}
+    seen_nt = {p: set() for p in SHARED}
     NT = {"C07": ("collision-parked", "collision-resolved-by-PUBACK", "collision-resolved-by-PUBCOMP", "wrapped", "out-of-order-ack", "id-reuse"),
           "C10": ("unsolicited", "inbound-qos1", "inbound-qos2", "inbound-release"),
           "C02": ("clean-with-unacked", "collision-resolved-by-PUBCOMP", "collision-resolved-by-PUBACK"),
@@ -1135,7 +1494,7 @@ def full_run(ctx, mexe, iexe):
                 for tag in m.nontrivial:
                     res["nontrivial"][tag] = res["nontrivial"].get(tag, 0) + 1
                 hh = None
-                for p in PROPS:
+                for p in SHARED:
                     if any(tag in m.nontrivial for tag in NT[p]):
                         hh = hh or hashlib.md5("\n".join(h).encode()).digest()
                         seen_nt[p].add(hh)
@@ -1153,7 +1512,7 @@ def full_run(ctx, mexe, iexe):
                 if res["driver_failure"]:
                     return res
         flush()
-    for p in PROPS:
+    for p in SHARED:
         res["distinct_nontrivial"][p] = len(seen_nt[p])
     res["loop"] = loop_run(ctx, mexe)
     res["wall_generated_run_s"] = round(time.time() - t0, 1)
@@ -1197,6 +1556,8 @@ RULES = {
 
 def run(ctx):
     prop = ctx.prop
+    if prop == "C18":
+        return run_c18(ctx)
     p_ok = ctx.proof_side(["Extract/ClientX.vo"])
     ctx.assumptions += ASSUMPTIONS
     mexe, iexe, out = drivers()
@@ -1311,6 +1672,8 @@ def run(ctx):
 
 
 def replay(ctx, path):
+    if ctx.prop == "C18":
+        return replay_c18(ctx, path)
     mexe, iexe, out = drivers()
     lines = [l.strip() for l in open(path).read().splitlines() if l.strip() and not l.startswith("#")]
     if lines and lines[0].startswith("LNEW"):
